@@ -131,7 +131,7 @@ def cov_report(pid):
 
 
 def cov_register(pid):
-    if COV:
+    if COV and pid in sys.argv:
         import atexit
         cov_begin()
         atexit.register(cov_report, pid)
@@ -707,7 +707,8 @@ def _view(fr, light=False):
         # the mapping interface of HeaderDict: len / iter / in / item access / get / keys / values
         out['hdr_map'] = [len(hd), sorted(iter(hd)), sorted(hd.keys()), all(k in hd for k in list(hd)),
                           _flat({k: hd[k] for k in list(hd)}), _flat({k: hd.get(k) for k in list(hd)}),
-                          'X-Never' in hd, hd.get('X-Never', 'dflt'), len(list(hd.values()))]
+                          'X-Never' in hd, hd.get('X-Never', 'dflt'), len(list(hd.values())),
+                          repr(hd).startswith('<HeaderDict: {')]
         out['status'] = rs.status_code
         out['status_line'] = rs.status_line if fr.get('w_line') is not None else None
         ck = rs._cookies
@@ -725,7 +726,7 @@ def _want(fr):
     return dict(path=fr['path'], qs=fr['qs'], query=sorted(q), method=fr['method'], cookie_hdr=fr['cookie'],
                 req_cookies=sorted(cq), req_map_ok=True, repr_has_path=True, ext=fr.get('w_ext'),
                 app=fr['app'], route_own=True, url_args=[['x%d' % fr['app'], fr['path'][3:]]],
-                hdrs=flat, hdr_map=[len(wh), sorted(wh), sorted(wh), True, flat, flat, False, 'dflt', len(wh)],
+                hdrs=flat, hdr_map=[len(wh), sorted(wh), sorted(wh), True, flat, flat, False, 'dflt', len(wh), True],
                 status=fr['w_status'], status_line=fr.get('w_line'),
                 cookies=sorted([k, v] for k, v in fr['w_cookies'].items()))
 
@@ -779,6 +780,9 @@ def _ret(fr, app, kind):
         fr['w_end'] = 203
         fr['w_end_hdrs'] = {'X-Obj': tok + 'obj'}
         resp = ombott.HTTPResponse('resp:' + tok, 203, {'X-Obj': tok + 'obj'}, X_More=tok)
+        if kind != 'resp_raise':
+            resp.set_cookie('rk', tok + 'rk')          # apply() then replaces the cookies of app.response too
+            fr['w_end_cookies'] = {'rk': tok + 'rk'}
         if kind == 'resp_obj':
             return resp
         if kind == 'resp_raise':
@@ -795,6 +799,22 @@ def _ret(fr, app, kind):
             raise RuntimeError(tok + '.genboom')
             yield ''
         return g2()
+    if kind == 'raise_mem':
+        # MemoryError (like KeyboardInterrupt / SystemExit) is never turned into a response
+        fr['w_final'], fr['w_end'] = 'escaped', 500
+        raise MemoryError(tok)
+    if kind == 'gen_raises_mem':
+        fr['w_final'], fr['w_end'] = 'escaped', 500
+
+        def g3():
+            raise MemoryError(tok)
+            yield ''
+        return g3()
+    if kind == 'static':
+        # ombott.static_file(): THIS request carries no conditional / range header, so the whole file is sent
+        fr['w_final'] = 'static'
+        fr['w_body'] = STATIC_TEXT
+        return ombott.static_file('verif_static.txt', _static_root())
     if kind == 'bad_charset':
         # the text cannot be encoded: the exception leaves _cast and reaches the last-resort page of wsgi()
         app.response.headers['Content-Type'] = 'text/html; charset=no-such-charset'
@@ -806,6 +826,27 @@ def _ret(fr, app, kind):
         fr['w_final'], fr['w_end'] = 'error', 500
         ombott.abort(418, tok + '.teapot')
     raise ValueError(kind)
+
+
+STATIC_TEXT = 'static file content of the verification harness'
+_STATIC_ROOT = [None]
+
+
+def _static_root():
+    """a directory with one small file of fixed content and fixed modification time (shared by all runs)"""
+    if _STATIC_ROOT[0] is None:
+        import tempfile
+        d = os.path.join(tempfile.gettempdir(), 'tsE_static_%d' % os.getuid())
+        os.makedirs(d, exist_ok=True)
+        path = os.path.join(d, 'verif_static.txt')
+        if not os.path.exists(path) or open(path).read() != STATIC_TEXT:
+            with open(path + '.%d' % os.getpid(), 'w') as f:
+                f.write(STATIC_TEXT)
+            os.replace(path + '.%d' % os.getpid(), path)
+        if os.stat(path).st_mtime != 1000000000:
+            os.utime(path, (1000000000, 1000000000))
+        _STATIC_ROOT[0] = d
+    return _STATIC_ROOT[0]
 
 
 def _before_after(app, which):
@@ -952,7 +993,8 @@ def _interp(fr):
             # ['call_copy', j, script]: hand a COPY of this request to application j (nested call on the copy's environ)
             sub = app.request.copy()
             inner = dict(app=act[1], tok=fr['tok'] + 'cc', script=act[2], qs=fr['qs'], method=fr['method'],
-                         form=None, cookie=fr['cookie'], readonly=fr.get('readonly'))
+                         form=None, cookie=fr['cookie'], readonly=fr.get('readonly'),
+                         w_ext=fr.get('w_ext'))       # (an ext attribute is an environ entry: the copy has it too)
             if len(act) > 3:
                 inner.update(act[3])          # e.g. {'hook_input': True}
             do_call(fr['apps'], inner, fr['log'], environ=sub.environ, path=fr['path'])
@@ -975,6 +1017,10 @@ def _interp(fr):
                 na = ombott.Ombott()
                 na.setup(app_config(act[1]))
                 fr['apps'].append(na)
+            elif act[1:2] == ['routes']:          # ['new_app', 'routes']: built, given routes and used right here
+                na = ombott.Ombott()
+                fr['apps'].append(na)
+                build_and_probe(na, fr['tok'] + 'N', fr['log'])
             else:
                 fr['apps'].append(ombott.Ombott(app_config(act[1])) if len(act) > 1 else ombott.Ombott())
         elif kind == 'form_see':
@@ -1053,14 +1099,43 @@ def _before_request_hook(app):
     return hook
 
 
+def build_and_probe(na, tok, log):
+    """routes (with filters) registered on a new application — possibly while other threads register theirs or
+    serve — and one request through them: the application must have exactly the rules it was given"""
+    import io
+    got = []
+    try:
+        na.route('/n%s/<p%s:int>/tail%s' % (tok, tok, tok), callback=lambda **kw: 'int:%s:%r' % (tok, sorted(kw.items())))
+        na.route('/m%s/{q%s:re([a-z]+)}' % (tok, tok), method='POST',
+                 callback=lambda **kw: 're:%s:%r' % (tok, sorted(kw.items())))
+    except Exception as e:  # noqa
+        got.append(['route registration failed', type(e).__name__])
+    for method, path in (('GET', '/n%s/7/tail%s' % (tok, tok)), ('POST', '/m%s/abc' % tok), ('GET', '/n%s/x/tail%s' % (tok, tok))):
+        env = {'REQUEST_METHOD': method, 'PATH_INFO': path, 'QUERY_STRING': '', 'SERVER_NAME': 'localhost',
+               'SERVER_PORT': '80', 'SERVER_PROTOCOL': 'HTTP/1.1', 'wsgi.url_scheme': 'http',
+               'wsgi.input': io.BytesIO(b''), 'wsgi.errors': io.StringIO(), 'SCRIPT_NAME': ''}
+        st = {}
+        try:
+            body = b''.join(na(env, lambda s_, h, e=None: st.update(s=s_))).decode('latin1')
+        except Exception as e:  # noqa
+            body = 'ESCAPED:' + type(e).__name__
+        got.append([st.get('s'), body if (st.get('s') or '').startswith('200') else ''])
+    want = [['200 OK', "int:%s:[('p%s', 7)]" % (tok, tok)], ['200 OK', "re:%s:[('q%s', 'abc')]" % (tok, tok)],
+            ['404 Not Found', '']]
+    log.append(dict(kind='form', tok=tok, where='new application routes', got=dict(answers=got), want=dict(answers=want)))
+
+
 def do_call(apps, call, log, environ=None, path=None):
     """one WSGI call of apps[call['app']]; appends the records of everything seen to `log`; returns the response.
     `environ`/`path`: serve this ready-made environ (a copy handed over by another handler) instead of a new one"""
     import io
     import ombott
     if call.get('construct'):
-        apps.append(ombott.Ombott(app_config(call['cfg'])) if call.get('cfg') else ombott.Ombott())
+        na = ombott.Ombott(app_config(call['cfg'])) if call.get('cfg') else ombott.Ombott()
+        apps.append(na)
         log.append(dict(kind='constructed'))
+        if call.get('routes'):
+            build_and_probe(na, call['tok'], log)
         return None
     tok = call['tok']
     form = call.get('form')
@@ -1094,6 +1169,10 @@ def do_call(apps, call, log, environ=None, path=None):
             env['HTTP_ACCEPT'] = call['accept']
         if call.get('readonly'):
             env['ombott.request.readonly'] = True
+        if call.get('conditional'):
+            # headers that matter to static_file() — of THIS request only
+            env['HTTP_IF_MODIFIED_SINCE'] = 'Wed, 01 Jan 2098 00:00:00 GMT'
+            env['HTTP_RANGE'] = 'bytes=0-3'
         if call.get('file_wrapper'):
             env['wsgi.file_wrapper'] = lambda f: [b'wrapped:' + f.read()]
         if call.get('domain'):
@@ -1105,7 +1184,8 @@ def do_call(apps, call, log, environ=None, path=None):
               readonly=call.get('readonly'), chunked_bad=call.get('chunked_bad'), too_big=call.get('too_big'),
               json_bad=call.get('json_bad'), json_nonobj=call.get('json_nonobj'), hook_input=call.get('hook_input'),
               log=log, w_hdrs={}, w_status=200, w_cookies={}, w_final='text', w_body='done:' + tok,
-              handler_runs=True, file_wrapper=call.get('file_wrapper'), domain=call.get('domain'))
+              handler_runs=True, file_wrapper=call.get('file_wrapper'), domain=call.get('domain'),
+              w_ext=call.get('w_ext'))
     if environ is None and call.get('route', 'r') != 'r':
         # the scripted handler is not reached: the framework answers by itself
         fr['handler_runs'] = False
@@ -1145,7 +1225,7 @@ def do_call(apps, call, log, environ=None, path=None):
                w_location=fr.get('w_location'), w_allow=fr.get('w_allow'),
                w_line=fr.get('w_line') if fr['w_final'] in ('text', 'gen') and 'w_end' not in fr else None,
                w_hdrs=[h for h in _flat(fr.get('w_end_hdrs', fr['w_hdrs'])) if h[0].startswith('X-')],
-               w_cookies=sorted([k, v] for k, v in fr['w_cookies'].items()))
+               w_cookies=sorted([k, v] for k, v in fr.get('w_end_cookies', fr['w_cookies']).items()))
     log.append(rec)
     return rec
 
@@ -1476,7 +1556,7 @@ def _main_run(case, solo_steps_):
         if rk not in _APPS_CACHE:
             _APPS_CACHE[rk] = make_apps(napps, use_default, max_body)
             _warm(_APPS_CACHE[rk])
-        apps = _APPS_CACHE[rk]
+        apps = list(_APPS_CACHE[rk])         # (threads that build applications append to their own copy)
     else:
         apps = make_apps(napps, use_default, max_body)
         _warm(apps)
@@ -1555,7 +1635,7 @@ def run_arrangement(case):
 # -- generator pieces shared by C08 and C10 (all randomness from rng)
 
 RET_KINDS = ['file', 'gen_empty', 'none', 'gen_blank_first', 'gen_bytes', 'gen_int', 'gen_raises_resp', 'resp_obj',
-             'resp_raise', 'gen_raises_exc', 'bad_charset']
+             'resp_raise', 'gen_raises_exc', 'bad_charset', 'raise_mem', 'gen_raises_mem']
 
 
 def gen_api_actions(rng, tok, has_form=False, readonly=False):
@@ -1563,7 +1643,7 @@ def gen_api_actions(rng, tok, has_form=False, readonly=False):
     r = rng.random()
     name = rng.choice(['X-A', 'X-B', 'X-C'])
     if r < 0.14:
-        return [['hdr_append', name, tok + 'a%d' % rng.randrange(3)]] * rng.choice([1, 2]) + [['see']]
+        return [['hdr_append', name, tok + 'a%d' % rng.randrange(3)]] * rng.choice([1, 2, 3]) + [['see']]
     if r < 0.22:
         return [['hdr', name, tok + 'h'], ['hdr_del', name], ['see']]
     if r < 0.30:
@@ -1578,6 +1658,8 @@ def gen_api_actions(rng, tok, has_form=False, readonly=False):
         key = rng.choice(['QUERY_STRING', 'HTTP_COOKIE', 'HTTP_X_T'] + ([] if has_form else ['CONTENT_TYPE']))
         val = {'QUERY_STRING': 'n=%sn' % tok, 'HTTP_COOKIE': 'c2=%sc2' % tok, 'HTTP_X_T': tok + 'xt',
                'CONTENT_TYPE': 'text/x-' + tok.lower()}[key]
+        if key == 'QUERY_STRING' and rng.random() < 0.3:
+            return [['req_set', key, 'q=%sq' % tok], ['see']]        # the value it has already: nothing changes
         return [['see'], ['req_set', key, val], ['see']]
     if r < 0.78:
         return [['req_del'], ['see']]
@@ -1646,6 +1728,11 @@ def arrangement_failure(case, obs):
                                {k: rec['got'].get(k) for k in diff + extra}, {k: rec['want'][k] for k in diff}))
             elif rec['kind'] == 'response':
                 tok = rec['tok']
+                if rec['w_final'] == 'static':
+                    if not (rec['status'] or '').startswith('200') or rec['body'] != rec['w_body']:
+                        return ('static_file(): thread %d: call %s (no conditional or range header) answered %r with %d bytes, '
+                                'expected 200 and the whole file' % (ti, tok, rec['status'], len(rec['body'])))
+                    continue
                 if rec['w_final'] == 'redirect':
                     loc = [h[1] for h in rec['hdrs'] if h[0] == 'Location']
                     if not (rec['status'] or '').startswith('303') or loc != [rec['w_location']]:
@@ -1701,3 +1788,52 @@ def arrangement_failure(case, obs):
             return ('thread %d: record %d (%s of call %s) differs from the same call served alone: [here, alone] = %s'
                     % (ti, k, a.get('kind') or b.get('kind'), a.get('tok') or b.get('tok'), json.dumps(diff)[:600]))
     return None
+
+
+# ---------------------------------------------------------------------------
+# batches: every schedule with <= `preempt` pre-emptions of one scenario, on a process pool
+# ---------------------------------------------------------------------------
+
+_ENUM = {}
+BATCH_FAIL = {}
+
+
+def _batch_worker(args):
+    base, scheds = args
+    bad = []
+    for st, sw in scheds:
+        c = dict(base, start=st, switches=sw)
+        o = run_arrangement(c)
+        f = arrangement_failure(c, o)
+        if f:
+            bad.append([st, sw, f])
+            if len(bad) >= 3:
+                break
+    return len(scheds), bad
+
+
+def run_batch(case, base):
+    """case: dict(kind='batch', preempt=k, lo=..., hi=...) ; base: the arrangement (no schedule). The schedules run in
+    worker processes of THIS process (applications reused); a failing schedule is remembered as an ordinary
+    arrangement case (absolute switches) for shrink()."""
+    import multiprocessing
+    base = dict(base, abs=True, reuse=True)
+    steps = run_arrangement(dict(base, reuse=False, start=0, switches=[]))['steps']
+    ek = (json.dumps(base, sort_keys=True), tuple(steps), case['preempt'])
+    if ek not in _ENUM:
+        _ENUM.clear()
+        _ENUM[ek] = enumerate_schedules(steps, case['preempt'])
+    part = _ENUM[ek][case.get('lo', 0):case.get('hi')]
+    nproc = max(1, min(12, (os.cpu_count() or 2) - 2))
+    chunk = max(1, (len(part) + nproc * 4 - 1) // (nproc * 4))
+    jobs = [(base, part[i:i + chunk]) for i in range(0, len(part), chunk)]
+    ran, bad = 0, []
+    if jobs:
+        with multiprocessing.get_context('fork').Pool(nproc) as pool:
+            for n, b in pool.imap_unordered(_batch_worker, jobs):
+                ran += n
+                bad.extend(b)
+    bad.sort()
+    if bad:
+        BATCH_FAIL[json.dumps(case, sort_keys=True)] = dict(base, start=bad[0][0], switches=bad[0][1], reuse=False)
+    return dict(kind='batch', ran=ran, steps=steps, failures=bad[:3])
